@@ -928,21 +928,28 @@ theorem abs_empty (b : Base) (i : Id) : abs b St.empty i = (b.find i).map viewOf
   | none => rfl
   | some f => simp [withMods_nil]
 
+/-- pointwise: the exported documents give the exporting world's view of `i`, provided `i` is listed if it
+is one of the overlay's features -/
+theorem export_spec_at (b : Base) {s : St} (hs : s.FeatsId) (hm : ModsNodup s.mods) (ord : List Id) (i : Id)
+    (hcov : (get s.feats i).isSome → i ∈ ord) :
+    specRun (abs b St.empty) (exportDocs s ord) i = abs b s i := by
+  have happ : specRun (abs b St.empty) (exportDocs s ord) =
+      specRun (specRun (abs b St.empty) (exportMods s.mods)) (exportFeats s ord) := by
+    simp [exportDocs, specRun, List.foldl_append]
+  rw [happ, specRun_exportFeats hs, specRun_exportMods s.mods hm, abs_empty, abs_eq]
+  cases hg : get s.feats i with
+  | some f => simp [hcov (by simp [hg])]
+  | none =>
+    simp only [Option.map_map, Function.comp_def]
+    split <;> rfl
+
 /-- **the exported documents reproduce the map**: run on the map of the bare base, the documents exported
 from a world give that world's map — for every order that lists all of the overlay's features -/
 theorem export_spec (b : Base) {s : St} (hs : s.FeatsId) (hm : ModsNodup s.mods) (ord : List Id)
     (hcov : ∀ i, (get s.feats i).isSome → i ∈ ord) :
     specRun (abs b St.empty) (exportDocs s ord) = abs b s := by
   funext i
-  have happ : specRun (abs b St.empty) (exportDocs s ord) =
-      specRun (specRun (abs b St.empty) (exportMods s.mods)) (exportFeats s ord) := by
-    simp [exportDocs, specRun, List.foldl_append]
-  rw [happ, specRun_exportFeats hs, specRun_exportMods s.mods hm, abs_empty, abs_eq]
-  cases hg : get s.feats i with
-  | some f => simp [hcov i (by simp [hg])]
-  | none =>
-    simp only [Option.map_map, Function.comp_def]
-    split <;> rfl
+  exact export_spec_at b hs hm ord i (hcov i)
 
 /-! ## the tables stay maps -/
 
@@ -1053,5 +1060,384 @@ theorem baseOf_idsOK (fs : List Feat) : (baseOf fs).IdsOK := by
   intro id f h
   simp only [baseOf, baseTable] at h
   exact baseTable_ids fs [] (by intro id g hg; simp at hg) id f h
+
+/-! ## whether a feature's own references resolve depends only on what the world shows for them -/
+
+theorem hasLoc_congr {find1 find2 : Id → Option Feat} {id : Id}
+    (h : (find1 id).map viewOf = (find2 id).map viewOf) : hasLoc find1 id = hasLoc find2 id := by
+  unfold hasLoc
+  cases h1 : find1 id with
+  | none =>
+    cases h2 : find2 id with
+    | none => rfl
+    | some g => simp [h1, h2] at h
+  | some f =>
+    cases h2 : find2 id with
+    | none => simp [h1, h2] at h
+    | some g =>
+      simp only [h1, h2, Option.map_some, Option.some.injEq] at h
+      have ht := congrArg (fun fv => fv.tags "point") h
+      have hb := congrArg (fun fv => fv.body) h
+      simp only [viewOf] at ht hb
+      simp only [ht, hb]
+
+theorem any_congr {α : Type} (l : List α) (p q : α → Bool) (h : ∀ a, a ∈ l → p a = q a) : l.any p = l.any q := by
+  induction l with
+  | nil => rfl
+  | cons a r ih =>
+    simp only [List.any_cons, h a List.mem_cons_self, ih (fun x hx => h x (List.mem_cons_of_mem _ hx))]
+
+theorem validatePath_congr (loc1 loc2 : Id → Bool) (tags : List Tag)
+    (h : ∀ as, pathElems tags = some as → ∀ r, r ∈ as.filterMap atomRef → loc1 r = loc2 r) :
+    validatePath loc1 tags = validatePath loc2 tags := by
+  unfold validatePath
+  split
+  · rfl
+  · cases hp : pathElems tags with
+    | none => rfl
+    | some as =>
+      simp only
+      have : as.any (missingRef loc1) = as.any (missingRef loc2) := by
+        apply any_congr
+        intro a ha
+        unfold missingRef
+        cases hr : atomRef a with
+        | none => rfl
+        | some id =>
+          simp only
+          rw [h as hp id (List.mem_filterMap.mpr ⟨a, ha, hr⟩)]
+      rw [this]
+
+theorem validateAreaPath_missing (find : Id → Option Feat) (id : Id) :
+    validateAreaPath find id = .missing ↔ find id = none := by
+  unfold validateAreaPath
+  cases h : find id with
+  | none => simp
+  | some p =>
+    simp only
+    constructor
+    · intro hm
+      split at hm
+      · simp at hm
+      · split at hm
+        · simp at hm
+        · split at hm
+          · simp at hm
+          · split at hm
+            · simp at hm
+            · split at hm <;> simp at hm
+    · intro hm; simp at hm
+
+theorem validateArea_missing (find : Id → Option Feat) (ps : List Poly) :
+    validateArea find ps = .missing ↔ ∃ id, id ∈ ps.flatMap polyPaths ∧ find id = none := by
+  unfold validateArea
+  simp only
+  constructor
+  · intro h
+    split at h
+    · rename_i hc
+      simp only [List.contains_iff_mem, List.mem_map] at hc
+      obtain ⟨id, hid, hv⟩ := hc
+      exact ⟨id, hid, (validateAreaPath_missing find id).mp hv⟩
+    · split at h <;> simp at h
+  · intro ⟨id, hid, hnone⟩
+    have : ((ps.flatMap polyPaths).map (validateAreaPath find)).contains Verd.missing = true := by
+      simp only [List.contains_iff_mem, List.mem_map]
+      exact ⟨id, hid, (validateAreaPath_missing find id).mpr hnone⟩
+    rw [if_pos this]
+
+/-- a feature with a path or area id has the matching body (what `WrapFeature` asserts) -/
+def Feat.Typed (f : Feat) : Prop :=
+  (idType f.id = 1 → f.body = .generic) ∧ (idType f.id = 2 → ∃ ps, f.body = .area ps)
+
+/-- **`missing` is a function of the references.** If two worlds show the same for every reference of `f`,
+`ValidateFeature` reports a missing reference in one iff in the other. -/
+theorem missing_congr (find1 find2 : Id → Option Feat) (f : Feat) (ht : f.Typed)
+    (h : ∀ r, r ∈ refsOf f → (find1 r).map viewOf = (find2 r).map viewOf) :
+    validateFeature find1 f = .missing ↔ validateFeature find2 f = .missing := by
+  unfold validateFeature
+  split
+  · -- a path
+    rename_i h1
+    have hb : f.body = .generic := ht.1 (by simpa using h1)
+    have : validatePath (hasLoc find1) f.tags = validatePath (hasLoc find2) f.tags := by
+      apply validatePath_congr
+      intro as hp r hr
+      apply hasLoc_congr
+      apply h
+      simp only [refsOf, hb, hp]; exact hr
+    rw [this]
+  · split
+    · rename_i h2
+      obtain ⟨ps, hb⟩ := ht.2 (by simpa using h2)
+      simp only [hb]
+      rw [validateArea_missing, validateArea_missing]
+      have hrefs : refsOf f = ps.flatMap polyPaths := by simp [refsOf, hb]
+      constructor
+      · intro ⟨id, hid, hn⟩
+        refine ⟨id, hid, ?_⟩
+        have := h id (hrefs ▸ hid)
+        rw [hn] at this
+        cases h2 : find2 id with
+        | none => rfl
+        | some g => simp [h2] at this
+      · intro ⟨id, hid, hn⟩
+        refine ⟨id, hid, ?_⟩
+        have := h id (hrefs ▸ hid)
+        rw [hn] at this
+        cases h1 : find1 id with
+        | none => rfl
+        | some g => simp [h1] at this
+    · simp
+
+/-! ## the export rank rises strictly along references (acyclic overlays) -/
+
+theorem mem_dedupKeys (l : List RefKey) (k : RefKey) : k ∈ dedupKeys l ↔ k ∈ l := by
+  induction l with
+  | nil => simp [dedupKeys]
+  | cons x r ih =>
+    simp only [dedupKeys]
+    split
+    · rename_i hc
+      rw [ih, List.mem_cons]
+      constructor
+      · exact Or.inr
+      · intro h
+        rcases h with h | h
+        · subst h; exact List.contains_iff_mem.mp hc
+        · exact h
+    · simp only [List.mem_cons, ih]
+
+theorem nodup_dedupKeys (l : List RefKey) : (dedupKeys l).Nodup := by
+  induction l with
+  | nil => simp [dedupKeys]
+  | cons x r ih =>
+    simp only [dedupKeys]
+    split
+    · exact ih
+    · rename_i hc
+      rw [List.nodup_cons]
+      refine ⟨?_, ih⟩
+      rw [mem_dedupKeys]
+      intro h
+      exact hc (List.contains_iff_mem.mpr h)
+
+/-- pigeonhole: a duplicate-free list inside another list is not longer -/
+theorem nodup_subset_length {α : Type} [DecidableEq α] (l : List α) (hn : l.Nodup) :
+    ∀ (m : List α), (∀ x, x ∈ l → x ∈ m) → l.length ≤ m.length := by
+  induction l with
+  | nil => intro m _; simp
+  | cons a r ih =>
+    intro m hsub
+    rw [List.nodup_cons] at hn
+    have ha : a ∈ m := hsub a List.mem_cons_self
+    have hr : ∀ x, x ∈ r → x ∈ m.erase a := by
+      intro x hx
+      have hne : x ≠ a := fun h => hn.1 (h ▸ hx)
+      exact (List.mem_erase_of_ne hne).mpr (hsub x (List.mem_cons_of_mem _ hx))
+    have := ih hn.2 (m.erase a) hr
+    rw [List.length_erase_of_mem ha] at this
+    have hpos : 0 < m.length := List.length_pos_of_mem ha
+    simp only [List.length_cons]
+    omega
+
+theorem dedup_length_lt (S T : List RefKey) (hsub : ∀ k, k ∈ S → k ∈ T) (x : RefKey) (hxT : x ∈ T)
+    (hxS : x ∉ S) : (dedupKeys S).length < (dedupKeys T).length := by
+  have hn : (x :: dedupKeys S).Nodup := by
+    rw [List.nodup_cons]
+    exact ⟨fun h => hxS ((mem_dedupKeys S x).mp h), nodup_dedupKeys S⟩
+  have := nodup_subset_length (x :: dedupKeys S) hn (dedupKeys T) (by
+    intro k hk
+    rw [mem_dedupKeys]
+    rcases List.mem_cons.mp hk with h | h
+    · subst h; exact hxT
+    · exact hsub k ((mem_dedupKeys S k).mp h))
+  simp only [List.length_cons] at this
+  omega
+
+theorem mem_reach_succ (s : St) (n : Nat) (t : Id) (k : RefKey) :
+    k ∈ reach s (n + 1) t ↔ k ∈ directKeys s t ∨ ∃ k', k' ∈ directKeys s t ∧ k ∈ reach s n k'.1 := by
+  simp only [reach, List.mem_append, List.mem_flatMap]
+
+theorem reach_mono (s : St) (k : RefKey) : ∀ (n : Nat) (t : Id), k ∈ reach s n t → k ∈ reach s (n + 1) t := by
+  intro n
+  induction n with
+  | zero => intro t h; simp [reach] at h
+  | succ n ih =>
+    intro t h
+    rw [mem_reach_succ] at h ⊢
+    rcases h with h | ⟨k', hk', h⟩
+    · exact Or.inl h
+    · exact Or.inr ⟨k', hk', ih _ h⟩
+
+theorem reach_mono_le (s : St) (k : RefKey) (t : Id) {n m : Nat} (hnm : n ≤ m) (h : k ∈ reach s n t) :
+    k ∈ reach s m t := by
+  induction hnm with
+  | refl => exact h
+  | step _ ih => exact reach_mono s k _ t ih
+
+/-- the sources recorded for a target are overlay features that refer to it -/
+theorem mem_directKeys {s : St} {t : Id} {k : RefKey} (h : k ∈ directKeys s t) :
+    ∃ e, e ∈ s.feats ∧ e.2.id = k.1 ∧ t ∈ refsOf e.2 := by
+  simp only [directKeys, List.mem_filterMap] at h
+  obtain ⟨e, he, hk⟩ := h
+  split at hk
+  · rename_i hc
+    simp only [Option.some.injEq] at hk
+    subst hk
+    exact ⟨e, he, rfl, List.contains_iff_mem.mp hc⟩
+  · simp at hk
+
+/-- a height: every overlay feature sits strictly below what it refers to -/
+def Height (s : St) (h : Id → Nat) : Prop := ∀ e, e ∈ s.feats → ∀ t, t ∈ refsOf e.2 → h e.2.id < h t
+
+theorem reach_below {s : St} {h : Id → Nat} (hh : Height s h) (k : RefKey) :
+    ∀ (n : Nat) (t : Id), k ∈ reach s n t → h k.1 < h t := by
+  intro n
+  induction n with
+  | zero => intro t hk; simp [reach] at hk
+  | succ n ih =>
+    intro t hk
+    rw [mem_reach_succ] at hk
+    rcases hk with hk | ⟨k', hk', hk⟩
+    · obtain ⟨e, he, hid, ht⟩ := mem_directKeys hk
+      rw [← hid]; exact hh e he t ht
+    · obtain ⟨e, he, hid, ht⟩ := mem_directKeys hk'
+      have h1 := ih _ hk
+      have h2 := hh e he t ht
+      rw [hid] at h2
+      omega
+
+/-- depth `h t` is enough to reach everything that can be reached from `t` -/
+theorem reach_bounded {s : St} {h : Id → Nat} (hh : Height s h) (k : RefKey) :
+    ∀ (n : Nat) (t : Id), k ∈ reach s n t → k ∈ reach s (h t) t := by
+  intro n
+  induction n with
+  | zero => intro t hk; simp [reach] at hk
+  | succ n ih =>
+    intro t hk
+    rw [mem_reach_succ] at hk
+    rcases hk with hk | ⟨k', hk', hk⟩
+    · obtain ⟨e, he, hid, ht⟩ := mem_directKeys hk
+      have hpos : 0 < h t := Nat.lt_of_le_of_lt (Nat.zero_le _) (hh e he t ht)
+      obtain ⟨m, hm⟩ : ∃ m, h t = m + 1 := ⟨h t - 1, by omega⟩
+      rw [hm, mem_reach_succ]; exact Or.inl hk
+    · obtain ⟨e, he, hid, ht⟩ := mem_directKeys hk'
+      have hlt : h k'.1 < h t := by rw [← hid]; exact hh e he t ht
+      obtain ⟨m, hm⟩ : ∃ m, h t = m + 1 := ⟨h t - 1, by omega⟩
+      rw [hm, mem_reach_succ]
+      exact Or.inr ⟨k', hk', reach_mono_le s k _ (by omega) (ih _ hk)⟩
+
+/-- **the export rank rises strictly along references.** If the overlay's references are acyclic — there
+is a height bounded by the closure's fuel — then a feature `e` of the overlay has a strictly smaller rank
+than anything it refers to. -/
+theorem rank_lt_of_ref {s : St} {h : Id → Nat} (hh : Height s h) (hb : ∀ t, h t < s.fuel)
+    (e : Id × Feat) (he : e ∈ s.feats) (t : Id) (ht : t ∈ refsOf e.2) :
+    rank s e.2.id < rank s t := by
+  unfold rank
+  let x : RefKey := (e.2.id, if indexedRefs e.2 then some t else none)
+  have hx : x ∈ directKeys s t := by
+    simp only [directKeys, List.mem_filterMap]
+    exact ⟨e, he, by simp [x, ht]⟩
+  obtain ⟨m, hm⟩ : ∃ m, s.fuel = m + 1 := ⟨s.feats.length, rfl⟩
+  apply dedup_length_lt _ _ _ x
+  · rw [hm, mem_reach_succ]; exact Or.inl hx
+  · intro hxa
+    have : h e.2.id < h e.2.id := reach_below hh x _ _ hxa
+    omega
+  · intro k hk
+    have h1 := reach_bounded hh k _ _ hk
+    have hlt : h e.2.id < h t := hh e he t ht
+    have hbt := hb t
+    rw [hm, mem_reach_succ]
+    exact Or.inr ⟨x, hx, reach_mono_le s k _ (by show h e.2.id ≤ m; omega) h1⟩
+
+/-! ## the order the export picks -/
+
+theorem mem_insertByRank (s : St) (id : Id) (l : List Id) (z : Id) :
+    z ∈ insertByRank s id l ↔ z = id ∨ z ∈ l := by
+  induction l with
+  | nil => simp [insertByRank]
+  | cons y r ih =>
+    simp only [insertByRank]
+    split
+    · simp
+    · simp only [List.mem_cons, ih]
+      constructor
+      · rintro (h | h | h)
+        · exact Or.inr (Or.inl h)
+        · exact Or.inl h
+        · exact Or.inr (Or.inr h)
+      · rintro (h | h | h)
+        · exact Or.inr (Or.inl h)
+        · exact Or.inl h
+        · exact Or.inr (Or.inr h)
+
+theorem insertByRank_sorted (s : St) (id : Id) (l : List Id)
+    (h : l.Pairwise (fun x y => rank s x ≥ rank s y)) :
+    (insertByRank s id l).Pairwise (fun x y => rank s x ≥ rank s y) := by
+  induction l with
+  | nil => simp [insertByRank]
+  | cons y r ih =>
+    rw [List.pairwise_cons] at h
+    simp only [insertByRank]
+    split
+    · rename_i hc
+      have hge : rank s id ≥ rank s y := by
+        simp only [Bool.or_eq_true, decide_eq_true_eq, Bool.and_eq_true, beq_iff_eq] at hc
+        rcases hc with hc | hc <;> omega
+      rw [List.pairwise_cons, List.pairwise_cons]
+      refine ⟨?_, h.1, h.2⟩
+      intro z hz
+      rcases List.mem_cons.mp hz with hz | hz
+      · subst hz; exact hge
+      · have := h.1 z hz; omega
+    · rename_i hc
+      have hle : rank s id ≤ rank s y := by
+        simp only [Bool.or_eq_true, decide_eq_true_eq, Bool.and_eq_true, beq_iff_eq, not_or] at hc
+        omega
+      rw [List.pairwise_cons]
+      refine ⟨?_, ih h.2⟩
+      intro z hz
+      rcases (mem_insertByRank s id r z).mp hz with hz | hz
+      · subst hz; exact hle
+      · exact h.1 z hz
+
+theorem foldl_insertByRank (s : St) (ks : List Id) : ∀ (acc : List Id),
+    acc.Pairwise (fun x y => rank s x ≥ rank s y) →
+    (ks.foldl (fun acc id => insertByRank s id acc) acc).Pairwise (fun x y => rank s x ≥ rank s y) ∧
+    ∀ z, z ∈ ks.foldl (fun acc id => insertByRank s id acc) acc ↔ z ∈ ks ∨ z ∈ acc := by
+  induction ks with
+  | nil => intro acc h; exact ⟨h, by simp⟩
+  | cons k r ih =>
+    intro acc h
+    simp only [List.foldl_cons]
+    have := ih (insertByRank s k acc) (insertByRank_sorted s k acc h)
+    refine ⟨this.1, ?_⟩
+    intro z
+    rw [this.2, mem_insertByRank, List.mem_cons]
+    constructor
+    · rintro (h | h | h)
+      · exact Or.inl (Or.inr h)
+      · exact Or.inl (Or.inl h)
+      · exact Or.inr h
+    · rintro ((h | h) | h)
+      · exact Or.inr (Or.inl h)
+      · exact Or.inl h
+      · exact Or.inr (Or.inr h)
+
+/-- the order the export picks is sorted by rank, largest first -/
+theorem exportOrder_sorted (s : St) : (exportOrder s).Pairwise (fun x y => rank s x ≥ rank s y) :=
+  (foldl_insertByRank s _ [] List.Pairwise.nil).1
+
+/-- … and lists every feature of the overlay -/
+theorem exportOrder_covers (s : St) (i : Id) (h : (get s.feats i).isSome) : i ∈ exportOrder s := by
+  rw [exportOrder, (foldl_insertByRank s _ [] List.Pairwise.nil).2]
+  refine Or.inl ?_
+  simp only [Mutable.AMap.keys]
+  apply Classical.byContradiction
+  intro hn
+  rw [get_none_of_not_mem hn] at h
+  simp at h
 
 end B6.Model.ChangeExport
